@@ -310,3 +310,36 @@ package mqtt
 //@ ensures[C15] err != nil ==> st_has(r.Persistence, key) == old(st_has(r.Persistence, key)) && st_len(r.Persistence, key) == old(st_len(r.Persistence, key)) && st_val(r.Persistence, key) == old(st_val(r.Persistence, key))
 //@ ensures[C15] err == nil ==> st_has(r.Persistence, key) && st_len(r.Persistence, key) == old(flatlen(value)) + 12
 //@ ensures[C15] forall(k, k != key ==> st_has(r.Persistence, k) == old(st_has(r.Persistence, k)) && st_len(r.Persistence, k) == old(st_len(r.Persistence, k)) && st_val(r.Persistence, k) == old(st_val(r.Persistence, k)))
+
+// cleanSequence keeps the longest contiguous tail (modulo 0x4000) and warns once per dropped run.
+//@ func mqtt.cleanSequence -> r
+//@ requires warn != nil
+//@ modifies *warn, elems(*warn)
+//@ loop 1: modifies *warn, elems(*warn)
+//@ loop 1: invariant ref(keys) == ref(old(keys)) && off(keys) >= off(old(keys)) && off(keys) + len(keys) == off(old(keys)) + len(old(keys)) && cap(keys) == cap(old(keys)) - (off(keys) - off(old(keys)))
+//@ loop 1: invariant i >= 1 && (len(keys) >= 1 ==> i <= len(keys)) && (len(old(keys)) > 0 ==> len(keys) > 0)
+//@ loop 1: invariant forall(j, 1, i, j < len(keys) ==> adj(keys[j-1], keys[j]))
+//@ loop 1: invariant off(keys) == off(old(keys)) || !adj(old(keys)[off(keys) - off(old(keys)) - 1], old(keys)[off(keys) - off(old(keys))])
+//@ loop 1: invariant len(*warn) >= old(len(*warn)) && (off(keys) != off(old(keys))) == (len(*warn) > old(len(*warn)))
+//@ ensures[C02,C16] ref(r) == ref(keys) && off(r) >= off(keys) && off(r) + len(r) == off(keys) + len(keys)
+//@ ensures[C02,C16] len(keys) > 0 ==> len(r) > 0
+//@ ensures[C02,C16] forall(j, 1, len(r), adj(r[j-1], r[j]))
+//@ ensures[C02,C16] off(r) == off(keys) || !adj(keys[off(r) - off(keys) - 1], keys[off(r) - off(keys)])
+//@ ensures[C02,C16] forall(j, 0, len(keys), keys[j] == old(keys[j]))
+//@ ensures[C16] (off(r) != off(keys)) == (len(*warn) > old(len(*warn)))
+
+// AdoptSession orders each key list by the storage sequence number of its record.
+//@ func mqtt.AdoptSession$1 -> less
+//@ pure
+//@ requires 0 <= i && i < len(*publishAtLeastOnceKeys) && 0 <= j && j < len(*publishAtLeastOnceKeys)
+//@ ensures[C02,C16] less == (at(*storeOrderPerKey, (*publishAtLeastOnceKeys)[i]) < at(*storeOrderPerKey, (*publishAtLeastOnceKeys)[j]))
+
+//@ func mqtt.AdoptSession$2 -> less
+//@ pure
+//@ requires 0 <= i && i < len(*publishExactlyOnceKeys) && 0 <= j && j < len(*publishExactlyOnceKeys)
+//@ ensures[C02,C16] less == (at(*storeOrderPerKey, (*publishExactlyOnceKeys)[i]) < at(*storeOrderPerKey, (*publishExactlyOnceKeys)[j]))
+
+//@ func mqtt.AdoptSession$3 -> less
+//@ pure
+//@ requires 0 <= i && i < len(*publishReleaseKeys) && 0 <= j && j < len(*publishReleaseKeys)
+//@ ensures[C02,C16] less == (at(*storeOrderPerKey, (*publishReleaseKeys)[i]) < at(*storeOrderPerKey, (*publishReleaseKeys)[j]))
